@@ -21,6 +21,17 @@ fn sharp(x: f64) -> f64 {
     if a < 0.5 { 1.0 } else if a < 1.5 { -0.45 } else { 0.0 }
 }
 
+/// a user-defined view that fulfils the documented contract of the unsafe trait
+struct MyView { w: u32, h: u32, row: Vec<U8> }
+unsafe impl ImageView for MyView {
+    type Pixel = U8;
+    fn width(&self) -> u32 { self.w }
+    fn height(&self) -> u32 { self.h }
+    fn iter_rows(&self, start_row: u32) -> impl Iterator<Item = &[U8]> {
+        (start_row..self.h).map(move |_| self.row.as_slice())
+    }
+}
+
 fn main() {
     let case = std::env::args().nth(1).unwrap_or_else(|| "all".into());
     let all = case == "all";
@@ -162,6 +173,12 @@ fn main() {
         let mut dst = TypedImage::<F32>::new(2, 1);
         fr::change_type_of_pixel_components_typed(&src, &mut dst).unwrap();
         println!("I32->F32: -1e9 -> {:?}, +1e9 -> {:?}", dst.pixels()[0].0, dst.pixels()[1].0);
+    }
+    if want("split-zero-width") {
+        let v = MyView { w: 0, h: 5, row: vec![] };
+        guard("user view 0x5 .split_by_height(0,5,2) (default impl)", || {
+            v.split_by_height(0, NonZeroU32::new(5).unwrap(), NonZeroU32::new(2).unwrap()).map(|v| v.len())
+        });
     }
     if want("split-zero-height") {
         let img = TypedImage::<U8>::new(5, 0);
